@@ -83,6 +83,7 @@ def swarm_cfg(rng, nclients=None, entry=None, long_latency=True):
         "latency": lat,
         "jitter": rng.choice([0.0, 0.0, 0.002, 0.02, 0.08, 0.2]),
         "reactor_lag": rng.choice([0.0, 0.0, 0.001, 0.01]),
+        "wake_lag": rng.choice([0.0, 0.0, 0.00005, 0.002, 0.02]),
         "instr_cost": rng.choice([1e-6, 1e-6, 5e-6, 2e-5]),
         "server": {"interval": interval, "configure_after_construction": rng.random() < 0.3,
                    "offset": 1.7e9 + rng.randrange(0, 10 ** 6), "rate": 1.0 + rng.choice([0, 0, 1e-3, -1e-3])},
